@@ -68,12 +68,12 @@ PROPS = {
     },
     "C07": {
         "level": "fault_enumeration",
-        "steps": [("py", "c07", "run")],
+        "steps": [("py", "c07", "run"), ("hv", "wasmdict", {"prop": "C07", "_tag": "C07wasm"})],
         "rule": "(1) histories of add-to-user-dictionary / add-to-file-dictionary / lint / restart on the real harper-ls over Unicode words (diacritics, curly apostrophes, case variants, CJK), "
                 "two documents, optionally a dictionary file already on disk; after every step each document's diagnostics are compared with a reference server running on dictionary files "
                 "written by the checker, and the server's dictionary files are re-read by an independent line parser; (2) crash points: the add command is traced with strace -P <dictionary "
                 "file>, then repeated with SIGKILL injected on entry to every syscall that touches the file (3 file sizes quick, 10 thorough, incl. > 8 KiB so the writer flushes more than once); "
-                "the file must reload to the old or the new word set and a new server must start on it; distinct = history shape + (size, syscall, n) kill points",
+                "the file must reload to the old or the new word set and a new server must start on it; (3) the JS API: import_words histories, every imported word is listed by export_words and accepted by the linter; distinct = history shape + (size, syscall, n) kill points",
         "assumptions": ["process death only (no power loss / page-cache loss: there is no fsync oracle)", "buffers are saved before a word is added (the disk re-read of C09 is not re-litigated here)"],
     },
     "C08": {
@@ -154,10 +154,10 @@ PROPS = {
     },
     "C17": {
         "level": "exploration",
-        "steps": [("hv", "C17", {})],
+        "steps": [("hv", "C17", {}), ("py", "lsx", "run_c17")],
         "rule": "n = 0..100000 exhaustively x {st,nd,rd,th} x 4 letter cases alone and in one sentence frame each, plus random n < 2^53 stratified on n mod 100 "
                 "and magnitude in 16 sentence frames (incl. other numbers, decimal points, amounts and full stops before and after the ordinal); oracle = integer ordinal rule; checks lint <=> wrong suffix, span = the two suffix letters, suggestion = correct "
-                "suffix, silence after applying it; non-trivial = wrong-suffix case; distinct = hash(n mod 100, suffix, #digits, frame)",
+                "suffix, silence after applying it; the same through harper-ls on documents with astral / BMP characters before the ordinal (range = the two suffix letters in UTF-16 columns, quick fix writes the correct suffix, silence after the fix); non-trivial = wrong-suffix case; distinct = hash(n mod 100, suffix, #digits, frame)",
         "assumptions": ["only the CorrectNumberSuffix rule is enabled"],
         "exhaustive_part": "all n in 0..=100000 x 4 suffixes x 4 letter cases",
     },
